@@ -637,6 +637,8 @@ class Interp:
             except _Continue:
                 pass
             self.end_write_log(log, inv, fr, name)
+            if hasattr(inv, 'unfold'):
+                inv.unfold(self, fr, None)
             ctx.prove(inv.inv(self, fr, None), name + ".inv.preserved", kind='invariant')
             if var0 is not None:
                 var1 = inv.variant(self, fr)
@@ -673,6 +675,8 @@ class Interp:
             except _Continue:
                 pass
             self.end_write_log(log, inv, fr, name)
+            if hasattr(inv, 'unfold'):
+                inv.unfold(self, fr, i)
             ctx.prove(inv.inv(self, fr, simp(i + 1)), name + ".inv.preserved", kind='invariant')
             raise PathEnd()
         else:
@@ -880,6 +884,8 @@ class Interp:
             return MethodRef(o, name)
         if isinstance(o, self.models.Handle):
             return self.models.handle_attr(self, o, name)
+        if isinstance(o, self.models.SymRegex):
+            return MethodRef(o, name)
         if o is None:
             raise_py(AttributeError, "'NoneType' object has no attribute '%s'" % name)
         if isinstance(o, int):
